@@ -85,11 +85,32 @@ def accepted_but_uncompilable(res, prop):
 # invariant are run a second time on the relevant corpora in a workspace whose profile switches debug assertions off (overflow checks stay on
 # for the harness's own arithmetic).
 NODEBUG_PROFILE = cratebuild.PROFILE.replace("[profile.dev]\n", "[profile.dev]\ndebug-assertions = false\noverflow-checks = true\n", 1) + "debug-assertions = false\n"
-NODEBUG_PROPS = {"C03", "C12", "C01"}
 
 
 def nodebug_decls(tier, seed):
-    return corpus_extra.build_defaults(tier, seed) + corpus_extra.build_finite(tier, seed) + corpus_extra.build_unchecked(tier, seed)
+    return (corpus_extra.build_defaults(tier, seed) + corpus_extra.build_finite(tier, seed) + corpus_extra.build_unchecked(tier, seed) + corpus_serde.build(tier, seed)
+            + corpus_arb.build(tier, seed))
+
+
+def nodefault_decls(tier, seed):
+    return [d for d in corpus_arb.build(tier, seed) + corpus_extra.build_finite(tier, seed) if d.inner.fam in ("int", "float")]
+
+
+# Build-configuration twins. The generated code is compiled inside the *user's* crate (and the macro itself by the user's cargo invocation), so what it does
+# may depend on the user's profile, rustc flags and on nutype's own feature set. The main workspace is a plain dev build with nutype's default features;
+# each twin rebuilds the corpora that matter under another configuration and runs the same monitors there at quick input depth (the exhaustive sweeps of the
+# thorough tier stay in the main workspace; violations get the twin's name as a prefix):
+#   nodebug   - `debug-assertions = false` (what `--release` gives): `cfg(debug_assertions)`, `debug_assert!` (seeded C03-k, C04-n, C05-m, C12-n, C14-m)
+#   fuzzcfg   - `--cfg fuzzing`, the flag cargo-fuzz / afl.rs compile Arbitrary impls with (seeded C14-n)
+#   nodefault - nutype with `default-features = false` (its `std` feature off) next to `arbitrary`/`serde` (seeded C09-m)
+TWINS = [
+    {"name": "nodebug", "props": {"C01", "C03", "C04", "C09", "C12", "C14"}, "decls": nodebug_decls, "profile": NODEBUG_PROFILE, "rustflags": None, "default_features": True,
+     "features": cratebuild.ALL_FEATURES, "prefix": "debug-assertions-off:"},
+    {"name": "fuzzcfg", "props": {"C09", "C14", "C12"}, "decls": lambda t, s_: corpus_arb.build(t, s_), "profile": None, "rustflags": ["--cfg", "fuzzing"], "default_features": True,
+     "features": cratebuild.ALL_FEATURES, "prefix": "cfg-fuzzing:"},
+    {"name": "nodefault", "props": {"C09", "C14", "C01"}, "decls": nodefault_decls, "profile": None, "rustflags": None, "default_features": False,
+     "features": ["serde", "arbitrary", "new_unchecked"], "prefix": "nutype-std-feature-off:"},
+]
 
 
 def ctor_flow(prop, tier, seed, rule, guards_fn, assumptions=None):
@@ -99,20 +120,26 @@ def ctor_flow(prop, tier, seed, rule, guards_fn, assumptions=None):
     if out is None:
         return finish(res)
     reports = out[prop]
-    if prop in NODEBUG_PROPS:
+    for tw in TWINS:
+        if prop not in tw["props"]:
+            continue
         q_main, d_main = dict(res.quarantined), res.declarations
-        out2, by_id2 = runtime_check(res, "rt-nodebug-%s" % tier, nodebug_decls(tier, seed), [prop], profile=NODEBUG_PROFILE)
+        extra_cov = dict(res.extra.get("coverage_extra", {}))
+        out2, by_id2 = runtime_check(res, "rt-%s-%s" % (tw["name"], tier), tw["decls"](tier, seed), [prop], features=tw["features"], profile=tw["profile"], rustflags=tw["rustflags"],
+                                     default_features=tw["default_features"], failure_handler=stall_handler, monitor_tier="quick")
         res.quarantined, res.declarations = q_main, d_main
+        res.extra["coverage_extra"] = extra_cov
         if out2 is None:
             return finish(res)
         for r in out2[prop]:
-            r["decl"] = "nodebug:" + r["decl"]
+            r["decl"] = tw["name"] + ":" + r["decl"]
             for v in r.get("violations", []):
-                v["signature"] = "debug-assertions-off:" + v["signature"]
-        res.extra.setdefault("coverage_extra", {})["declarations_rerun_with_debug_assertions_off"] = len(out2[prop])
-        res.guard("reports_with_debug_assertions_off", len(out2[prop]), 20)
+                v["signature"] = tw["prefix"] + v["signature"]
+            r["violation_counts"] = {tw["prefix"] + k: v for k, v in r.get("violation_counts", {}).items()}
+        res.extra.setdefault("coverage_extra", {})["declarations_rerun_in_twin:" + tw["name"]] = len(out2[prop])
+        res.guard("reports_in_twin[%s]" % tw["name"], len(out2[prop]), 10)
         by_id = dict(by_id)
-        by_id.update({"nodebug:" + k: v for k, v in by_id2.items()})
+        by_id.update({tw["name"] + ":" + k: v for k, v in by_id2.items()})
         reports = reports + out2[prop]
     absorb_reports(res, reports, by_id)
     guards_fn(res, reports)
@@ -695,6 +722,35 @@ def check_c08(tier, seed):
                  "observed": "test %s" % ("passed" if passed else "FAILED"), "expected": "test %s" % ("fails" if must_fail else "passes"), "detail": ""}
             v["replay"] = write_witness(res, v, module_text=text, decl_src=text, kind="generated-test")
             res.violations.append(v)
+    # the same planted tests as the user's `cargo test --release` (debug assertions off) would run them: they must still fail on contradictions
+    gdir2 = os.path.join(WORK, "c08-gentests-nodebug")
+    write_if_changed(os.path.join(gdir2, "src", "lib.rs"), "#![allow(dead_code, unused_imports)]\n" + "\n".join(t[0] for t in gt))
+    write_if_changed(os.path.join(gdir2, "Cargo.toml"), '[package]\nname = "gentests_nodebug"\nversion = "0.1.0"\nedition = "2021"\n\n[dependencies]\nnutype = { path = "%s/nutype" }\n\n[workspace]\n\n'
+                     '[profile.dev]\ndebug = 0\ndebug-assertions = false\n\n[profile.test]\ndebug = 0\ndebug-assertions = false\n' % REPO)
+    if not os.path.exists(os.path.join(gdir2, "Cargo.lock")):
+        import shutil
+        shutil.copy(os.path.join(REPO, "Cargo.lock"), os.path.join(gdir2, "Cargo.lock"))
+    rc2, out_t2, err_t2, _ = run(["cargo", "test", "--offline", "--lib", "--", "--test-threads", "8"], cwd=gdir2, env=env, timeout=1200)
+    results2 = {}
+    for line in out_t2.splitlines():
+        line = line.strip()
+        if line.startswith("test ") and (line.endswith("... ok") or line.endswith("... FAILED")):
+            results2[line[5:].rsplit(" ... ", 1)[0]] = line.endswith("ok")
+    if not results2:
+        res.inconclusive.append("generated-tests crate (debug assertions off) produced no test results: rc=%d %s" % (rc2, err_t2[-600:]))
+    n2 = 0
+    for (text, tname, test, must_fail) in gt:
+        full = "%s::__nutype_%s__::tests::%s" % (text.split()[2], tname, test)
+        if full not in results2:
+            continue
+        n2 += 1
+        res.evaluations += 1
+        if results2[full] == must_fail:
+            v = {"decl": tname, "signature": "debug-assertions-off:generated-test-wrong-outcome:%s:%s" % (test, "passes-on-contradiction" if must_fail else "fails-on-consistent"), "input": text,
+                 "observed": "test %s with debug assertions off" % ("passed" if results2[full] else "FAILED"), "expected": "test %s" % ("fails" if must_fail else "passes"), "detail": ""}
+            v["replay"] = write_witness(res, v, module_text=text, decl_src=text, kind="generated-test")
+            res.violations.append(v)
+    res.guard("generated_tests_run_with_debug_assertions_off", n2, 50)
     res.samples.append({"generated_test_example": gt[1][0], "expected": "test fails" if gt[1][3] else "test passes"})
     # guards
     seen = res.extra.pop("rules_seen", set())
